@@ -242,6 +242,8 @@ FAMILIES = [
     Family('Sig', methods={'get_param_names': FnSpec('Signature.get_param_names', params=[('resolve_stars', BOOL)],
                                                      defaults={'resolve_stars': False}, ret=Seq(Obj('ParamName')),
                                                      pure=True, assumed=True)}),
+    Family('TSig', attrs={'is_bound': BOOL, '_function_value': Obj('FVal11'), 'value': ANY}),
+    Family('FVal11', methods={'get_param_names': FnSpec('FunctionValue.get_param_names', ret=Seq(ANY), pure=True)}),
     Family('BN11', attrs={'_name': Obj('NameW'), 'name': STR, 'type': STR, 'module_name': STR},
            methods={'_get_docstring': FnSpec('BaseName._get_docstring', ret=STR, pure=True),
                     '_get_docstring_signature': FnSpec('BaseName._get_docstring_signature', ret=STR, pure=True)}),
@@ -471,13 +473,43 @@ _sig_to_string = Contract(
     ensures=['result == self._signature.to_string()'],
 )
 
-CONTRACTS = CALC + CALC_THOROUGH + KINDS + RENDER + [_docstring, _clean_doc, _stmt_doc, _sig_index, _sig_params,
+# ------------------------------------------------------------------ binding of self
+_tree_params = Contract(
+    id='C11.TreeSignature.get_param_names', prop='C11',
+    clause='a bound signature (method looked up on an instance, class being called) shows the function\'s parameters '
+           'WITHOUT the first one (self / cls); an unbound one shows all of them, in order; star-resolution is applied '
+           'before the first parameter is removed',
+    file='jedi/inference/signature.py', qualname='TreeSignature.get_param_names',
+    params={'self': Obj('TSig'), 'resolve_stars': BOOL}, families=['TSig', 'FVal11'], ret=Seq(ANY),
+    names={'process_params': FnSpec('process_params', params=[('param_names', Seq(ANY))], ret=Seq(ANY), pure=True,
+                                    assumed=True, note='star_args.process_params (inference; not decided here)')},
+    ensures=['implies(not resolve_stars and not self.is_bound, result == self._function_value.get_param_names())',
+             'implies(not resolve_stars and self.is_bound, result == self._function_value.get_param_names()[1:])',
+             'implies(resolve_stars and not self.is_bound, result == process_params(self._function_value.get_param_names()))',
+             'implies(resolve_stars and self.is_bound, result == process_params(self._function_value.get_param_names())[1:])'],
+    notes='memoize_method (per object, keyed by the arguments) is transparent for one call',
+)
+_tree_bind = Contract(
+    id='C11.TreeSignature.bind', prop='C11',
+    clause='binding a signature keeps the function it describes and marks it bound (the first parameter is then hidden)',
+    file='jedi/inference/signature.py', qualname='TreeSignature.bind',
+    params={'self': Obj('TSig'), 'value': ANY}, families=['TSig', 'FVal11'], ret=Obj('TSig'),
+    ensures=['result == TreeSignature(value, self._function_value, True)'],
+)
+
+CONTRACTS = [_tree_params, _tree_bind] + CALC + CALC_THOROUGH + KINDS + RENDER + [_docstring, _clean_doc, _stmt_doc, _sig_index, _sig_params,
                                                        _sig_to_string]
 
 
 def register(reg):
     from pyvc.values import MCls
     reg.names['ImportName'] = MCls('ImportName')
+    reg.names['TreeSignature'] = FnSpec('TreeSignature', params=[('value', ANY), ('function_value', Obj('FVal11')),
+                                                                 ('is_bound', BOOL)],
+                                        defaults={'is_bound': False}, ret=Obj('TSig'), pure=True, assumed=False,
+                                        ensures=['result.is_bound == is_bound', 'result._function_value == function_value',
+                                                 'result.value == value'],
+                                        note='TreeSignature.__init__ stores its arguments (function_value given)')
     reg.add_family(Family('SigAPI', attrs={'_signature': Obj('SigVal'), '_call_details': Obj('CallDetails'),
                                            '_inference_state': ANY}))
     reg.add_family(Family('SigVal', methods={
